@@ -31,7 +31,8 @@
    flight in the kernel, measured):
      k="residue"   t = name of a table of the server (_clients, _buffers,
                    _closeq) or of the poller (_read, _write, _targets, _map)
-                   that holds c's socket
+                   that holds c's socket (reported for dead sockets); a = bytes
+                   still buffered (t = "_buffers", informational)
      k="quiet"     end of the residue report of world p
      k="endstep"   every world has done this step of the history (p = "")
    client components (c = 1, world p):
@@ -61,7 +62,9 @@
        addressed to a peer that has closed), bytes the peer sent may be lost:
        reads must still be a gap-free prefix; such connections are exempt
        from C12.poller_disagree;
-     * a close requested by the application may cut unread bytes;
+     * a close requested by the application may cut unread bytes (Select
+       handles write readiness before read readiness, Poll / EPoll the other
+       way round: where the cut falls differs);
      * a half-closed or merely idle connection need not be disconnected.   *)
 EXTENDS Integers, Sequences, FiniteSets
 
@@ -114,7 +117,10 @@ QuietFail(s) ==
        THEN "C12.read_gap"
   ELSE ""
 
-Summary(s, c) == <<s.ph[c], s.seen[c] = s.rx[c]>>
+(* what the worlds must agree on: the phase, and - unless the application asked
+   for the close, which may cut unread bytes at a poller-dependent point -
+   whether everything the peer sent has been delivered *)
+Summary(s, c) == <<s.ph[c], s.sreq[c] \/ s.seen[c] = s.rx[c]>>
 
 EndStepFail(P) ==
   LET S == {p \in Worlds(P) : P.w[p].settled} IN
